@@ -313,12 +313,49 @@ pub fn encode_arrow_schema(schema: &Schema) -> String {
     BASE64_STANDARD.encode(&len_prefix_schema)
 }
 
+/// Returns true if `data_type` is, or contains at any depth, a run-end encoded type
+fn contains_ree(data_type: &DataType) -> bool {
+    match data_type {
+        DataType::RunEndEncoded(_, _) => true,
+        DataType::List(f)
+        | DataType::LargeList(f)
+        | DataType::ListView(f)
+        | DataType::LargeListView(f)
+        | DataType::FixedSizeList(f, _)
+        | DataType::Map(f, _) => contains_ree(f.data_type()),
+        DataType::Struct(fields) => fields.iter().any(|f| contains_ree(f.data_type())),
+        DataType::Dictionary(_, v) => contains_ree(v),
+        _ => false,
+    }
+}
+
+/// Replaces every run-end encoded type in `data_type`, at any nesting depth, with its
+/// values type: run-end encoded arrays are written (and read back) as their values.
+fn flatten_ree_type(data_type: &DataType) -> DataType {
+    let flatten = |f: &FieldRef| -> FieldRef { Arc::new(flatten_ree_field(f)) };
+    match data_type {
+        DataType::RunEndEncoded(_, value_field) => flatten_ree_type(value_field.data_type()),
+        DataType::List(f) => DataType::List(flatten(f)),
+        DataType::LargeList(f) => DataType::LargeList(flatten(f)),
+        DataType::ListView(f) => DataType::ListView(flatten(f)),
+        DataType::LargeListView(f) => DataType::LargeListView(flatten(f)),
+        DataType::FixedSizeList(f, size) => DataType::FixedSizeList(flatten(f), *size),
+        DataType::Map(f, sorted) => DataType::Map(flatten(f), *sorted),
+        DataType::Struct(fields) => DataType::Struct(fields.iter().map(flatten).collect()),
+        DataType::Dictionary(k, v) => {
+            DataType::Dictionary(k.clone(), Box::new(flatten_ree_type(v)))
+        }
+        other => other.clone(),
+    }
+}
+
 fn flatten_ree_field(field: &Field) -> Field {
-    match field.data_type() {
-        DataType::RunEndEncoded(_, value_field) => field
+    if contains_ree(field.data_type()) {
+        field
             .clone()
-            .with_data_type(value_field.data_type().clone()),
-        _ => field.clone(),
+            .with_data_type(flatten_ree_type(field.data_type()))
+    } else {
+        field.clone()
     }
 }
 
@@ -332,7 +369,7 @@ pub fn add_encoded_arrow_schema_to_metadata(schema: &Schema, props: &mut WriterP
     let has_ree = schema
         .fields()
         .iter()
-        .any(|f| matches!(f.data_type(), DataType::RunEndEncoded(_, _)));
+        .any(|f| contains_ree(f.data_type()));
     let flat_schema;
     let schema = if has_ree {
         let flat_fields: Vec<Field> = schema
